@@ -92,6 +92,8 @@ def binop(it, op, a, b, node):
 
 
 def arith(it, opn, a, b, node):
+    if isinstance(a, imgdom.CompStack) or isinstance(b, imgdom.CompStack):
+        return imgdom.stack_arith(opn, a, b)
     # python constants
     if is_pyconst(a) and is_pyconst(b):
         va, vb = pyval(a), pyval(b)
@@ -306,6 +308,14 @@ def logical(it, opn, a, b, node):
 
 # ====================================================================================================== attributes
 def getattr_(it, base, attr, node, fr):
+    if isinstance(base, imgdom.CompStack):
+        if attr == "shape":
+            n_ = Val(call("gridsize", *[A.n for A in (base.axes or [])]))
+            n_.stack_of = base
+            return Seq([K(len(base.comps)), n_] if base.flat else [K(len(base.comps))] + [Val(A.n) for A in base.axes], "tuple")
+        if attr == "T":
+            raise Unsupported("transpose of a stack of component grids", node)
+        return Method(base, attr)
     if isinstance(base, Obj):
         if attr in base.attrs:
             return base.attrs[attr]
@@ -590,6 +600,11 @@ def filter_frame(it, f, mask, node, how="filter"):
 
 
 def getitem(it, base, idx, node, fr):
+    if isinstance(base, imgdom.CompStack):
+        r_ = imgdom.stack_getitem(base, idx)
+        if r_ is None:
+            raise Unsupported("indexing of a stack of component grids", node)
+        return r_
     if isinstance(base, Indexer):
         return indexer_get(it, base, idx, node, fr)
     if isinstance(base, Frame):
